@@ -24,7 +24,7 @@ from harness.common import main, MachineryError
 from checks.c06 import inputs as c06_inputs
 
 K = 3
-ARM = {'site': None, 'want': 'go', 'progress': 0, 'finished': []}
+ARM = {'site': None, 'want': 'go', 'progress': 0, 'finished': [], 'mask': 'r'}
 
 
 def fault_work_class():
@@ -48,6 +48,8 @@ def fault_work_class():
 
         async def get_events(self):
             self._boom('get_events')
+            if self.role() == 'adv' and ARM['mask'] == 'rw':
+                return {self.work[0].fileno(): selectors.EVENT_READ | selectors.EVENT_WRITE}
             return {self.work[0].fileno(): selectors.EVENT_READ}
 
         async def handle_events(self, r, w):
@@ -94,7 +96,7 @@ def generate(num, seed):
 
 
 def execute_scripted(case, klass):
-    ARM.update({'site': None, 'want': 'go', 'progress': 0, 'finished': []})
+    ARM.update({'site': None, 'want': 'go', 'progress': 0, 'finished': [], 'mask': 'r'})
     sim = simdrive.Sim(args=[], flag_opts={'work_klass': klass})
     roles = {}
     for w in case['pending']:
@@ -114,6 +116,8 @@ def execute_scripted(case, klass):
             ARM['site'] = site
         elif act == 'WantTeardown':
             ARM['want'] = 'teardown'
+        elif act == 'WantWrite':
+            ARM['mask'] = 'rw'
         elif act == 'Vanish':
             # the selector silently loses the adversary's descriptor (what epoll does when the number is closed / reused)
             for fd, w in roles.items():
